@@ -33,7 +33,12 @@ RULE = ("(handshake) for each of 12 handshake flavours a fault-free run "
         "after close; close() that waits for the peer's close_notify "
         "(closeSocket=False) with application data / post-handshake "
         "messages of the peer in flight; the reader's courtesy close_notify "
-        "hitting a dead transport. non-trivial = the fault fired / the closure event was "
+        "hitting a dead transport; close_notify at alert level 2 / 0 / 255; "
+        "(peer alert) the peer aborts the handshake with an unprotected "
+        "fatal alert in place of its k-th record, k over every position "
+        "where that alert is unprotected (for TLS 1.3 also instead of the "
+        "client's second flight): the call raises exactly that remote "
+        "alert. non-trivial = the fault fired / the closure event was "
         "delivered; distinct = (scenario, endpoint, direction, offset, "
         "kind) or the data-phase case")
 ASSUMPTIONS = [
